@@ -38,6 +38,8 @@ type peer struct {
 	fileSize int               // size of generated files
 	readdirN map[string]int
 	failOff  map[string]uint32 // "R:<off>" / "W:<off>" -> status code to answer with
+	inPump   int               // requests taken out of `held` by the pump and not yet answered
+	badBytes []int             // every READ/WRITE whose range contains one of these positions fails with "E@<lowest>"
 	replyFn  func(p *peer, f wframe) []byte // override for reply synthesis (nil = default)
 	mutate   func(f wframe, reply []byte) []byte
 	quiet    bool
@@ -93,6 +95,17 @@ func peerDirHandle(path string) string { return "D" + path }
 func peerLink(path string) string     { return "L" + path }
 func peerReal(path string) string     { return "/R/" + path }
 
+// firstBad returns the lowest bad byte in [off, off+n), or -1.
+func (p *peer) firstBad(off uint64, n int) int {
+	best := -1
+	for _, b := range p.badBytes {
+		if uint64(b) >= off && uint64(b) < off+uint64(n) && (best < 0 || b < best) {
+			best = b
+		}
+	}
+	return best
+}
+
 // defaultReply derives the reply from the request. Called with p.mu held.
 func (p *peer) defaultReply(f wframe) []byte {
 	switch f.Typ {
@@ -116,13 +129,22 @@ func (p *peer) defaultReply(f wframe) []byte {
 		if end > uint64(len(d)) {
 			end = uint64(len(d))
 		}
+		if b := p.firstBad(f.Off, int(end-f.Off)); b >= 0 {
+			return fStatus(f.ID, 4, fmt.Sprintf("E@%d", b))
+		}
 		return fData(f.ID, d[f.Off:end])
 	case tWrite:
 		if code, ok := p.failOff["W:"+itoa(int(f.Off))]; ok {
 			return fStatus(f.ID, code, fmt.Sprintf("E@%d", f.Off))
 		}
+		if b := p.firstBad(f.Off, len(f.Data)); b >= 0 {
+			return fStatus(f.ID, 4, fmt.Sprintf("E@%d", b))
+		}
 		d := p.file(f.Handle)
 		need := int(f.Off) + len(f.Data)
+		if len(f.Data) == 0 {
+			return fStatus(f.ID, 0, "")
+		}
 		if need > len(d) {
 			nd := make([]byte, need)
 			copy(nd, d)
@@ -130,6 +152,14 @@ func (p *peer) defaultReply(f wframe) []byte {
 		}
 		copy(d[f.Off:], f.Data)
 		p.files[f.Handle] = d
+		return fStatus(f.ID, 0, "")
+	case tFsetstat:
+		if f.A.Flags&1 != 0 { // size
+			d := p.file(f.Handle)
+			nd := make([]byte, f.A.Size)
+			copy(nd, d)
+			p.files[f.Handle] = nd
+		}
 		return fStatus(f.ID, 0, "")
 	case tStat, tLstat:
 		return fAttrs(f.ID, wattrs{Flags: 1 | 4, Size: peerStatSize(f.Path), Perm: 0o100644})
@@ -309,6 +339,9 @@ func (p *peer) pump(batch int, idle time.Duration, perm func(n int) []int, stop 
 		order := perm(n)
 		// answer by original position: convert a permutation of 0..n-1 into successive removals
 		p.mu.Lock()
+		if n > len(p.held) {
+			n = len(p.held)
+		}
 		batchReqs := append([]heldReq(nil), p.held[:n]...)
 		p.held = append([]heldReq(nil), p.held[n:]...)
 		for _, k := range order {
